@@ -37,6 +37,7 @@ int main(int argc, char **argv) {
     std::string line;
     while (std::getline(std::cin, line)) {
         std::vector<std::string> f = split_ws(line);
+        case_begin(f.empty() ? std::string("?") : f[0], 300);
         if (f.size() < 3) { printf("%s BAD\n", f.empty() ? "?" : f[0].c_str()); continue; }
         const std::string &id = f[0], &op = f[1];
         if (op == "tbl") {
@@ -82,6 +83,7 @@ int main(int argc, char **argv) {
             gr_face_destroy(gf);
         } else printf("%s BAD\n", id.c_str());
         fflush(stdout);
+        case_end();
     }
     return 0;
 }
